@@ -8,7 +8,7 @@ from . import common as C
 from .exprs import And, Assert, Bt, Call, Concat, Cond, Group, JoinL, JoinR, Or, Str, Var, pr
 
 NAMES = ["a", "b", "c", "d", "e", "f", "g", "h", "HEX", "A_UP", "zz"]
-STRS = ["", "x", "ab", "a b", " pad ", "Ab-C", "a/b", "foo.bar", "aaa", "it's"]
+STRS = ["", "x", "ab", "a b", " pad ", "Ab-C", "a/b", "foo.bar", "aaa", "it's", "fooBar", "HTTPServer x2Y"]
 
 
 PATHS = ["a/b.c", "/x/y.tar.gz", "./d/", "..", ".rc", "a//b/../c.", "/", "dir/.hidden.txt", "p/q/", "n.o/file", "a/./b/", "up/../../z.z"]
@@ -66,7 +66,8 @@ class Gen:
         if k == "group":
             return Group(e())
         if k == "u":
-            return Call(r.choice(["uppercase", "lowercase", "trim", "trim_start", "trim_end", "capitalize", "encode_uri_component"]), e())
+            return Call(r.choice(["uppercase", "lowercase", "trim", "trim_start", "trim_end", "capitalize", "encode_uri_component", "kebabcase", "snakecase",
+                                  "shoutykebabcase", "shoutysnakecase", "titlecase", "uppercamelcase", "lowercamelcase"]), e())
         if k == "q":
             return Call("quote", e())
         if k == "p":
@@ -563,7 +564,7 @@ def run(report):
     report.coverage.update({
         "evaluations": n + len(cases2) + 2,
         "distinct_nontrivial": len(distinct),
-        "rule": "random assignment sets (1-7 variables, names unrelated to the dependency order so that lazy forward evaluation is exercised, user variables named like constants, every expression form: + / && || if == != =~ !~ assert groups backticks shell() and 20 concrete string/env functions, depth <= 5), random subsets overridden by NAME=VALUE or --set, 4% failing backticks; values read through a recipe, backtick log through the fake shell; a quarter re-run with the assignments written in reverse order; submodule assignments across several recipes; distinct = distinct justfile texts",
+        "rule": "random assignment sets (1-7 variables, names unrelated to the dependency order so that lazy forward evaluation is exercised, user variables named like constants, every expression form: + / && || if == != =~ !~ assert groups backticks shell() and 34 concrete string/path/case/env functions, depth <= 5), random subsets overridden by NAME=VALUE or --set, 4% failing backticks; values read through a recipe, backtick log through the fake shell; a quarter re-run with the assignments written in reverse order; submodule assignments across several recipes; distinct = distinct justfile texts",
         "samples": samples,
         "traces_validated_against_impl": n + len(cases2),
         "stats": stats,
@@ -571,7 +572,7 @@ def run(report):
     })
     report.assumptions += [
         "regex operators are exercised with literal patterns only (modelled as substring search); ASCII letters and whitespace only",
-        "about fifty built-in functions (paths, hashes, case conversions by heck, datetime, uuid, semver, read, ...) are outside the concrete set and not generated",
+        "about thirty built-in functions (hashes, datetime, uuid, semver, regex replacement, read / path_exists / canonicalize and the other file-system and directory functions, choose, style, which, require) are outside the concrete set and not generated; the case conversions are modelled on ASCII text only",
     ]
 
 
